@@ -239,6 +239,56 @@ PLANS['C08'] = dict(
 )
 
 
+PLANS['C17'] = dict(
+    rule='round 0 of each process enumerates every valid operation sequence to depth D over K elements and 2 lists (exhaustive for that bound; D=5,K=4 quick; D=6,K=5 thorough); '
+         'later rounds are random 300-operation sequences over 6 elements and 3 lists; after every operation all lists are compared with array models forwards and backwards. '
+         'distinct_nontrivial = distinct abstract list configurations reached in which some list has at least two elements.',
+    groups=[
+        G('dll_seq', 'c-asan', 'A', 1, 2000, thorough=100000, params=dict(depth=5, elems=4)),
+        G('dll_seq', 'cpp-asan', 'A', 1, 2000, thorough=100000, params=dict(depth=4, elems=4)),
+        G('dll_seq', 'c-plain', 'A', 1, 1, tier='thorough', thorough=1, params=dict(depth=6, elems=5), no_scale=True),
+    ],
+)
+
+
+PLANS['C18'] = dict(
+    rule='round 0 of each process is the complete boundary grid (25 second values x 8 nanosecond values, squared) for add/sub/cmp/(a+b)-b plus boundary arguments of ms/us/s_ns; '
+         'each later round is 200 000 random pairs and 200 000 random scalar arguments; every result is compared with __int128 arithmetic under UBSan. '
+         'distinct_nontrivial = distinct (a,b) pairs checked (hash of the 128-bit pair); pairs that overflow the seconds field are skipped and counted.',
+    groups=[
+        G('time_arith', 'c-asan', 'A', 2, 6, thorough=60),
+        G('time_arith', 'cpp-asan', 'A', 2, 6, thorough=60),
+    ],
+)
+
+
+AF = dict(wraps=['malloc'], ldflags=['-rdynamic'])
+PLANS['C19'] = dict(
+    level='fault_enumeration',
+    rule='fault enumeration: round r fails the (r mod 13)-th malloc issued from inside nsync_note_new / nsync_counter_new while a tree of 7 notes and 3 counters is built '
+         '(10 constructor calls by the builder; indices beyond the number of calls are control rounds), single-threaded and with a second thread contending for the root; '
+         'every placement of one failure among the constructor allocations of the scenario is enumerated in each build and mode. '
+         'distinct_nontrivial = distinct (failed index, thread count, schedule/history) executions in which a constructor returned NULL.',
+    groups=[
+        G('alloc_fail', 'c-asan', 'B', 2, 26 * 20, thorough=26 * 400, **AF),
+        G('alloc_fail', 'c-asan', 'A', 2, 26 * 10, thorough=26 * 200, **AF),
+        G('alloc_fail', 'cpp-asan', 'B', 1, 26 * 10, thorough=26 * 200, **AF),
+        G('alloc_fail', 'c-plain', 'A', 1, 26 * 10, thorough=26 * 200, **AF),
+    ],
+    assumptions=['only allocations issued by the two constructors themselves are failed; allocations of the waiter pool (nsync_mu_lock under contention) are counted and left alone'],
+)
+
+
+PLANS['C07'] = dict(
+    rule=RULE_B + RULE_A + 'non-trivial = some call found the once already claimed (a loser) or slept.',
+    groups=[
+        G('once', 'c-plain', 'B', 12, 3000),
+        G('once', 'c-plain', 'A', 4, 1500, thorough=40000),
+        G('once', 'cpp-plain', 'B', 4, 20000, tier='thorough', thorough=20000),
+    ],
+)
+
+
 def expand(prop, tier, scale=1.0):
     spec = PLANS[prop]
     out = []
